@@ -663,6 +663,10 @@ func (n *Net) ListenUDP(network string, laddr *net.UDPAddr) (*UDPSock, error) {
 	n.mu.Lock()
 	defer n.mu.Unlock()
 	a := &net.UDPAddr{IP: laddr.IP, Port: laddr.Port, Zone: laddr.Zone}
+	if len(a.IP) == 0 {
+		// like the kernel: a wildcard "udp" socket reports [::] as its local address
+		a.IP = net.IPv6unspecified
+	}
 	if a.Port == 0 {
 		n.nextEphem++
 		a.Port = n.nextEphem
